@@ -98,6 +98,52 @@ def scenario(ctx, log, run_id, sw, ww, keep_alive, rnd, quick, max_scrape=3, eve
         t.stop()
 
 
+def stress_scenario(ctx, log, run_id, rnd, quick):
+    """Many concurrent kept-alive connections over several socket workers and ONE swarm worker: every
+    request must be answered by a well-framed 200 reply (per-thread summary events; reply contents are
+    validated by the other scenarios)."""
+    port = free_port(socket.SOCK_STREAM)
+    t = Tracker(ctx, "http", http_config(port, 3, 1, True, max_scrape=5, max_peers=5), "c16_stress")
+    nthreads, nreq = (10, 250) if quick else (16, 1500)
+    try:
+        tcp_wait_ready(("127.0.0.1", port), tracker=t)
+        log.add({"ev": "reset", "run": run_id, "socket_workers": 3, "swarm_workers": 1, "keep_alive": True,
+                 "max_scrape": 5, "max_peers": 5, "scenario": "stress"})
+        res = {}
+
+        def client(k):
+            ok = 0
+            first_bad = None
+            try:
+                c = HttpConn(CLIENT_IPS[k % 3], ("127.0.0.1", port))
+                for i in range(nreq):
+                    c.send_split(request_bytes(announce_path(20 + k, 5000 + i % 7, left=i % 2)), [])
+                    out = c.read_reply(timeout=3.0)
+                    if out.get("outcome") == "reply" and out.get("status") == 200 and out.get("framed") \
+                            and out.get("extra") == 0 and out["reply"].get("kind") == "announce":
+                        ok += 1
+                    else:
+                        first_bad = {k2: v for k2, v in out.items() if k2 != "reply"}
+                        break
+                c.close()
+            except OSError as e:
+                first_bad = {"error": str(e)[:80]}
+            res[k] = (ok, first_bad)
+
+        ths = [threading.Thread(target=client, args=(k,)) for k in range(nthreads)]
+        for th in ths:
+            th.start()
+        for th in ths:
+            th.join(120)
+        for k in sorted(res):
+            log.add({"ev": "stress", "thread": k, "requests": nreq, "answered": res[k][0],
+                     "first_bad": res[k][1] if res[k][1] else {}})
+        if not t.alive():
+            log.add({"ev": "tracker_died", "stderr": t.stderr()[-600:], "stdout": t.stdout()[-300:]})
+    finally:
+        t.stop()
+
+
 def digits_scenario(ctx, log, run_id, rnd):
     """Replies of 4-, 2- and 3-digit lengths in turn on one kept-alive connection (the Content-Length
     field of the re-used header buffer must be rewritten cleanly each time)."""
@@ -227,6 +273,7 @@ def run(ctx):
     for k, (sw, ww, ka) in enumerate(combos):
         scenario(ctx, log, k, sw, ww, ka, rnd, ctx.quick(), every_offset=(not ctx.quick() and k == len(combos) - 2))
     digits_scenario(ctx, log, 90, rnd)
+    stress_scenario(ctx, log, 91, rnd, ctx.quick())
     tp = ctx.path("http_server.ndjson")
     with open(tp, "w") as f:
         for e in log.events:
